@@ -121,9 +121,11 @@ def run(tier, seed, replay=None):
     for _ in range(0 if replay else (150 if tier == "quick" else 3000)):
         names = rng.sample(sorted(set(pool)), rng.randint(2, 5))
         typed = rng.random() < 0.6
-        s = {"properties": {n: {"type": rng.choice(["string", "integer"])} for n in names}}
+        declared_n = names if not typed else names[:max(1, len(names) - rng.randint(0, 2))]
+        s = {"properties": {n: {"type": rng.choice(["string", "integer"])} for n in declared_n}}
         if typed:
-            s.update({"type": "object", "title": "T"})
+            # the names left over are only REQUIRED, not declared: an object class gets a property for each of them as well
+            s.update({"type": "object", "title": "T", "required": [n for n in names if n not in declared_n] + declared_n[:1]})
         try:
             e = parse_element(copy.deepcopy(s))
         except BaseException as exc:  # noqa
